@@ -162,8 +162,14 @@ def root_contract(ctx, i_star, j_star):
   RF = z3.Function("Root", z3.RealSort(), z3.IntSort(), z3.IntSort(), z3.IntSort(), z3.IntSort(), z3.RealSort())
   EF = z3.Function("RootErr", z3.RealSort(), z3.IntSort(), z3.IntSort(), z3.RealSort())
 
+  PF = z3.Function("WithPrev", z3.RealSort(), z3.RealSort(), z3.RealSort())
+
   def contract(stats, exponents, padding_start=None, prev=None):
     name = sym._as_real_z(stats.at((i_star, j_star)))
+    if prev is not None and isinstance(prev, T.Tensor) and len(prev.shape) == 2:
+      # a root routine may read the previous preconditioner it is handed (frequent directions does): the result is a
+      # function of THAT matrix too, named by its generic entry
+      name = PF(name, sym._as_real_z(prev.at((i_star, j_star))))
     p = sym._as_int_z(exponents.item() if isinstance(exponents, T.Tensor) else exponents)
     ps = sym._as_int_z(padding_start.item() if isinstance(padding_start, T.Tensor) else padding_start)
     root = T.Tensor(stats.shape, T.float32,
@@ -171,16 +177,18 @@ def root_contract(ctx, i_star, j_star):
     err = T.Tensor((), T.float32, lambda idx: SReal(EF(name, p, ps)))
     return root, GEN["metrics_cls"](inverse_pth_root_errors=err)
 
+  contract.with_prev = PF
   return contract, RF, EF
 
 
-def mk_p3(N, D, grouping=None):
-  """grouping: number of statistics per parameter state (default: one each); sum(grouping) = N."""
+def mk_p3(N, D, grouping=None, reuse=False):
+  """grouping: number of statistics per parameter state (default: one each); sum(grouping) = N.
+  reuse: reuse_preconditioner=True - the root routine of statistic k is handed the previous preconditioner OF STATISTIC k."""
   grouping = tuple(grouping) if grouping else (1,) * N
   assert sum(grouping) == N
 
   def t(ctx, it):
-    m, env = constructor_env(it)
+    m, env = constructor_env(it, **(dict(reuse_preconditioner=True) if reuse else {}))
     GEN["metrics_cls"] = m.TrainingMetrics
     # every statistic has its OWN symbolic size s_k <= max_size (so its padding_start differs from its neighbours')
     sz = spec.fresh_int("max_size", lo=1)
@@ -243,6 +251,9 @@ def mk_p3(N, D, grouping=None):
                  sym.sand(got.shape[0] == sizes[k], got.shape[1] == sizes[k]), detail=f"N={N} D={D} k={k}")
       # the root routine sees statistic k padded to max_size, ITS exponent and ITS padding start (= its true size)
       name = sym._as_real_z(m.pad_square_matrix(statistics[k], sz).at((i_star, j_star)))
+      if reuse:
+        pk = env["pad_and_maybe_zero_preconditioners"]([prev[k]], 1, sz, T.asarray(step))[0]
+        name = contract.with_prev(name, sym._as_real_z(pk.at((i_star, j_star))))
       want_root = SReal(RF(name, exponents[k].z, sizes[k].z, i.z, j.z))
       err = SReal(EF(name, exponents[k].z, sizes[k].z))
       keep = sym.sor(err >= tau)
@@ -324,6 +335,8 @@ def tasks(tier):
          [(n, d) for d in (1, 2, 3, 4) for n in range(1, 7)]
   for n, d in grid:
     ts.append(Task(f"pmap_compute_preconditioners[N={n},D={d}]", mk_p3(n, d)))
+  for n, d in ((2, 2), (3, 2), (4, 3)):
+    ts.append(Task(f"pmap_compute_preconditioners[N={n},D={d},reuse_preconditioner]", mk_p3(n, d, None, True)))
   for n, d, gr in ((3, 2, (3,)), (3, 2, (2, 1)), (4, 3, (1, 3))):
     ts.append(Task(f"pmap_compute_preconditioners[N={n},D={d},statistics per parameter {gr}]", mk_p3(n, d, gr)))
   return ts
